@@ -608,7 +608,7 @@ func runExprClaims(meta *common.Meta, seed int64, outDir string, n int) {
 
 // operands the model has no counterpart for: maps, pointers to arrays, complex numbers, opaque calls returning a
 // defined type, struct values with methods, package variables changed by calls, closures, interface-typed fields
-var outsideFragmentRe = regexp.MustCompile(`\b(mm|pa|gxs|fa|mc|mc2|fmf|vv|it|val|gn|bumpG|func|refill|err|cx|st|myArr|myF|float64|pe)\b|&`)
+var outsideFragmentRe = regexp.MustCompile(`\b(gxs|fa|mc|mc2|fmf|vv|it|val|gn|bumpG|func|refill|err|cx|st|myArr|myF|float64|pe)\b|(?:^|[^&])&[A-Za-z(]`)
 
 var impureCallRe = regexp.MustCompile(`\b(fi|gi|hi|fu|ff|hf|fs|fb|fbs|fxs|fmf|Next)\(`)
 var mutatingRe = regexp.MustCompile(`refill\(\)|bumpG\(\)|func\(\) bool`)
